@@ -121,6 +121,36 @@ pub fn layout<const V: u32>(plan: &str) {
 }
 
 // ------------------------------------------------------------------------------------------------
+// C28: allocation churn. Objects of a few sizes are kept in a ring of root slots, so that the heap
+// fills up and collections are triggered by allocation (Space::acquire: reserve, poll, clear the
+// request, block for GC) rather than requested by the driver.
+// ------------------------------------------------------------------------------------------------
+pub fn churn<const V: u32>(d: &mut Driver<V>, p: &Params, heap_mb: usize, is_nogc: bool) {
+    let rounds = arg_u64("rounds", 3);
+    for round in 0..rounds {
+        reset(5000 + round);
+        // many heaps' worth of allocation per round, at most half a heap live at any time
+        let ring = p.nslots.max(4);
+        let unit = (heap_mb << 20) / (2 * ring);
+        let n = if is_nogc { 2 * ring as u64 } else { arg_u64("churn", 40) * ring as u64 };
+        for i in 0..n {
+            safepoint();
+            let (sem, size) = match d.rng.below(4) {
+                0 => (2, unit.max(16384) & !7),
+                1 => (0, (unit / 2).clamp(1024, 30000) & !7),
+                2 => (0, (unit / 8).clamp(256, 8192) & !7),
+                _ => (0, 24 + 8 * d.rng.below(64) as usize),
+            };
+            let sem = if p.sems.contains(&sem) { sem } else { 0 };
+            d.new_object(0, (i as usize) % ring, sem, size, 1, 8, 0, KIND_PLAIN);
+        }
+        if !is_nogc {
+            d.gc(0, true);
+        }
+    }
+}
+
+// ------------------------------------------------------------------------------------------------
 // C31
 // ------------------------------------------------------------------------------------------------
 
